@@ -41,7 +41,7 @@ def verify_contract(verifier, cls, **kw):
                 stats=verifier.stats.get((cls.file, cls.qualname)))
 
 
-def discharge_all(obs, quick_ms=300, cli_timeout_s=20, all_solvers=False, seed=0, workdir=None, threads=5):
+def discharge_all(obs, quick_ms=300, cli_timeout_s=20, all_solvers=False, seed=0, workdir=None, threads=3):
     """Stage 1: in-process z3 with a short budget (sequential: z3py contexts are not thread safe).
     Stage 2: everything not proved goes to the command-line portfolio, several obligations at a time."""
     from concurrent.futures import ThreadPoolExecutor
@@ -56,7 +56,7 @@ def discharge_all(obs, quick_ms=300, cli_timeout_s=20, all_solvers=False, seed=0
             dup.append((ob, seen[key]))
             continue
         seen[key] = ob
-        r = solve.z3_check(sliced, min(quick_ms, 300), want_model=False, seed=seed)
+        r = solve.z3_check(sliced, 5000, want_model=False, seed=seed, rlimit=150000)
         if r.verdict == "unsat" and not all_solvers:
             r.all = {"z3py": ("unsat", round(r.time, 3))}
             ob.result = r
